@@ -28,6 +28,7 @@ entry; the intermediate state is outside `InputsOK`, and the step lemma for it i
 -/
 import CkbVerif.Lemmas.PoolEdge
 import CkbVerif.Lemmas.PoolLimit
+import CkbVerif.Lemmas.PoolLinks
 namespace CkbVerif.C11
 open CkbVerif.Pool
 
@@ -39,17 +40,25 @@ open CkbVerif.Pool
       (no two pooled transactions spend the same cell), ids are unique, the three per-status counters equal the
       number of entries of that status, `total_tx_size` / `total_tx_cycles` equal the sums over the entries;
     * `LimitOK s`: if neither bad pattern occurred in the history (`ghostBad = false`), every entry's
-      `ancestors_count` is at most `max_ancestors_count`. -/
-def PoolInvP (s : Pool) : Prop := EdgeOK (edge s) ∧ LimitOK s
+      `ancestors_count` is at most `max_ancestors_count`;
+    * `LinksOK s`: the link map's keys are exactly the pooled ids, parents / children lists are duplicate-free
+      and converse to each other (every link joins two pooled transactions), and every id that
+      `edges.deps` / `edges.inputs` names as user of an out-point is pooled and references that out-point. -/
+def PoolInvP (s : Pool) : Prop := EdgeOK (edge s) ∧ LimitOK s ∧ LinksOK s
+
+theorem linksOK_empty (c : Cfg) (chain : List Nat) : LinksOK (empty c chain) :=
+  ⟨List.nodup_nil, List.nodup_nil, fun _ _ h => (by cases h), fun _ h => (by cases h),
+    ⟨List.nodup_nil, fun _ _ => ⟨fun h => (by cases h), fun h => (by cases h)⟩, fun _ => List.nodup_nil, fun _ => List.nodup_nil⟩,
+    fun _ => ⟨fun h => (by cases h), fun ⟨⟨_, h, _⟩, _⟩ => (by cases h)⟩⟩
 
 theorem poolInvP_empty (c : Cfg) (chain : List Nat) : PoolInvP (empty c chain) :=
-  ⟨edgeOK_empty c chain, fun _ _ h => by cases h⟩
+  ⟨edgeOK_empty c chain, (fun _ _ h => (by cases h)), linksOK_empty c chain⟩
 
 /-- PARTIAL (see the header): every one of the ten operations — `commit` with its two-phase
     `resolve_conflict` included — preserves `PoolInvP`, from every state, for every configuration
     (code as written or any combination of the repairs). -/
 theorem pool_inv_step_partial (s : Pool) (op : Op) (h : PoolInvP s) : PoolInvP (step s op) :=
-  ⟨edgeOK_step s op h.1, limitOK_closed.step s op h.2⟩
+  ⟨edgeOK_step s op h.1, limitOK_closed.step s op h.2.1, linksOK_closed.step s op h.2.2⟩
 
 theorem pool_inv_run_partial (c : Cfg) (chain : List Nat) (ops : List Op) : PoolInvP (run (empty c chain) ops) := by
   suffices ∀ s, PoolInvP s → PoolInvP (run s ops) from this _ (poolInvP_empty c chain)
@@ -95,7 +104,27 @@ theorem counts_and_totals_after_any_history (c : Cfg) (chain : List Nat) (ops : 
 theorem ancestor_limit_after_clean_history (c : Cfg) (chain : List Nat) (ops : List Op)
     (hclean : (run (empty c chain) ops).ghostBad = false) :
     ∀ e ∈ (run (empty c chain) ops).entries, e.anc.count ≤ (run (empty c chain) ops).cfg.maxAnc :=
-  (pool_inv_run_partial c chain ops).2 hclean
+  (pool_inv_run_partial c chain ops).2.1 hclean
+
+/-- After ANY history: a transaction has a link entry iff it is pooled, `p` is listed as a parent of `c`
+    iff `c` is listed as a child of `p`, and both ends of every link are pooled. -/
+theorem links_after_any_history (c : Cfg) (chain : List Nat) (ops : List Op) :
+    let s := run (empty c chain) ops
+    (∀ id, id ∈ keys s.links ↔ ∃ e ∈ s.entries, e.tx.id = id) ∧
+    (∀ p c, p ∈ parentsOf s.links c ↔ c ∈ childrenOf s.links p) ∧
+    (∀ p c, p ∈ parentsOf s.links c → (∃ e ∈ s.entries, e.tx.id = p) ∧ (∃ e ∈ s.entries, e.tx.id = c)) := by
+  intro s
+  have h := (pool_inv_run_partial c chain ops).2.2
+  have hk : ∀ id, id ∈ keys s.links ↔ ∃ e ∈ s.entries, e.tx.id = id := by
+    intro id
+    rw [h.keysEq id]
+    simp only [txs, List.mem_map, List.not_mem_nil, not_false_eq_true, and_true]
+    constructor
+    · rintro ⟨t, ⟨e, he, rfl⟩, hid⟩; exact ⟨e, he, hid⟩
+    · rintro ⟨e, he, hid⟩; exact ⟨e.tx, ⟨e, he, rfl⟩, hid⟩
+  refine ⟨hk, h.struct.sym, fun p c hp => ?_⟩
+  obtain ⟨a, b⟩ := h.struct.parent_key hp
+  exact ⟨(hk p).mp a, (hk c).mp b⟩
 
 /-! ## concrete histories -/
 
